@@ -124,9 +124,12 @@ def concat_shard(arg):
     return st
 
 
-def lex(s):
+PREFIX_NAMES = ("L", "u", "U", "u8")
+
+
+def lex(s, typedef_prefixes=False):
     errs = []
-    lx = CLexer(lambda m, l, c: errs.append(m), lambda: None, lambda: None, lambda n: False)
+    lx = CLexer(lambda m, l, c: errs.append(m), lambda: None, lambda: None, (lambda n: n in PREFIX_NAMES) if typedef_prefixes else (lambda n: False))
     lx.input(s)
     toks = []
     for _ in range(len(s) + 3):
@@ -189,6 +192,12 @@ def expected_type(cls, s):
 def check_string(s, st, via_parser=True):
     st.evaluations += 1
     toks, errs = lex(s)
+    if s[:1] in "uUL":
+        # literals are classified by their spelling: a typedef that happens to be
+        # named like an encoding prefix changes nothing about a prefixed literal
+        toks_t, errs_t = lex(s, True)
+        if (errs_t, [(("ID" if t == "TYPEID" else t), v) for t, v in toks_t]) != (errs, toks):
+            fail("accepted-lenient", s, s, "with typedefs named L/u/U/u8 in scope the text lexes as %r errors=%r, without them as %r errors=%r" % (toks_t[:4], errs_t[:2], toks[:4], errs[:2]), "prefix-typedef")
     single = len(toks) == 1 and not errs and toks[0][1] == s and toks[0][0] in LITERAL_CLASSES
     got = toks[0][0] if single else None
     strict = reflex.classify(s, lenient=False)
